@@ -254,10 +254,10 @@ theorem from_first_candidate (cfg : Config) (env : Env) (ws : List Str) (hrep : 
 /-- **S8/S9 (printing)** for every well-formed expression (the shapes the elimination produces — `ofDfa_wf`) and
 plain presentation settings, the printed text is accepted by the regex parser and the compiled pattern
 matches a string of scalar values in full iff the string spells a word of the expression's symbol-level
-language: printing and re-reading by the regex crate's syntax preserves the language -/
+language (grapheme by grapheme, a shorthand-class token standing for any member of the class): printing and re-reading by the regex crate's syntax preserves the language -/
 theorem printing_preserves_language (cap : Bool) (e : Expr) (hwf : e.WF) (s : Str) (hs : ∀ c ∈ s, Scalar c) :
     ∃ P, Spec.parse (fmtRegExp (cfgPlain cap) e) = some (⟨false, false⟩, P) ∧
-      (Spec.fullMatch false P s = true ↔ ∃ w, e.lang w ∧ s = flat w) :=
+      (Spec.fullMatch false P s = true ↔ ∃ w, e.lang w ∧ atomsDen (atomsOf w) s) :=
   printed_accepts cap e hwf s hs
 
 /-- the expression `Expression::from` returns for an acyclic automaton with plain labels is well-formed -/
